@@ -1326,6 +1326,13 @@ impl<B> StreamRef<B> {
         let actions = &mut me.actions;
         let promised_id = actions.send.reserve_local()?;
 
+        // Validate and convert the request before the promised stream is
+        // inserted into the store, so a rejected request leaves nothing behind.
+        let frame = {
+            let stream = me.store.resolve(self.opaque.key);
+            crate::server::Peer::convert_push_message(stream.id, promised_id, request)?
+        };
+
         let child_key = {
             let mut child_stream = me.store.insert(
                 promised_id,
@@ -1342,8 +1349,6 @@ impl<B> StreamRef<B> {
 
         let pushed = {
             let mut stream = me.store.resolve(self.opaque.key);
-
-            let frame = crate::server::Peer::convert_push_message(stream.id, promised_id, request)?;
 
             actions
                 .send
